@@ -159,13 +159,17 @@ def theorem_names(prop_file: pathlib.Path) -> list[tuple[str, bool]]:
     return out
 
 
-def prove(pid: str, required: list[str], tier: str, extra_modules: list[str] | None = None) -> dict:
+def prove(pid: str, required: list[str], tier: str, extra_modules: list[str] | None = None, regen=None) -> dict:
     """Build the property's theorems and audit their axioms.  Returns a report dict; never raises on a failed proof
     (that is a broken proof obligation, handled by the caller), raises InfraError on tool failure."""
     t0 = time.time()
     mods = [f'FemtoVerif.Props.{pid}'] + list(extra_modules or [])
     report: dict = {'modules': mods, 'build_ok': False, 'missing': [], 'bad_axioms': {}, 'forbidden': [], 'log_tail': ''}
     with lean_lock():
+        if regen is not None:
+            # the generated files (Gen/*.lean) are a function of the repository under check: regenerate them under the same lock
+            # as the build, so that concurrent checks of different trees (FEMTO_REPO) never build each other's files
+            report['regen'] = regen()
         if tier == 'thorough':
             # re-elaborate the property's own modules from scratch (dependencies stay cached)
             for m in mods:
@@ -320,6 +324,26 @@ def changed_sources(pid: str) -> list[str]:
     return sorted(f for f in set(ref) | set(now) if not f.startswith('_') and ref.get(f) != now.get(f))
 
 
+class CallTimeout(Exception):
+    """Raised inside `time_limit` when the wrapped call does not return in time."""
+
+
+@contextlib.contextmanager
+def time_limit(seconds: float):
+    """Per-call wall-clock limit (main thread, SIGALRM): a library call that no longer terminates must not hang the check."""
+    import signal
+
+    def _raise(signum, frame):
+        raise CallTimeout(f'no result after {seconds} s')
+    old = signal.signal(signal.SIGALRM, _raise)
+    signal.setitimer(signal.ITIMER_REAL, seconds)
+    try:
+        yield
+    finally:
+        signal.setitimer(signal.ITIMER_REAL, 0)
+        signal.signal(signal.SIGALRM, old)
+
+
 def load_known() -> dict:
     p = VERIF / 'known_findings.json'
     if p.exists():
@@ -382,14 +406,32 @@ def repo_head() -> str:
         return '?'
 
 
+QUIET_LIMIT_S = 300.0
+
+
 @contextlib.contextmanager
 def quiet():
-    """Silence the library's chatty prints."""
+    """Silence the library's chatty prints — and bound the wall-clock time of the library call inside: every call into the
+    library goes through here, and a (changed) library that no longer returns must not hang the check.  The limit is far
+    above anything the unchanged library needs; a block that sets its own alarm (C10, `time_limit`) keeps it."""
+    import signal
+    import threading
     old = sys.stdout
     sys.stdout = io.StringIO()
+    armed = False
+    old_handler = None
+    if threading.current_thread() is threading.main_thread() and signal.getitimer(signal.ITIMER_REAL)[0] == 0:
+        def _raise(signum, frame):
+            raise CallTimeout(f'the library call did not return within {QUIET_LIMIT_S} s')
+        old_handler = signal.signal(signal.SIGALRM, _raise)
+        signal.setitimer(signal.ITIMER_REAL, QUIET_LIMIT_S)
+        armed = True
     try:
         yield
     finally:
+        if armed:
+            signal.setitimer(signal.ITIMER_REAL, 0)
+            signal.signal(signal.SIGALRM, old_handler)
         sys.stdout = old
 
 
